@@ -1,163 +1,58 @@
-import Ptn.C06.Model
-import Ptn.C05.Lemmas
-import Ptn.C05.Props
-/-! Property theorems for C06: completion of the one-site schedules, the centre at the end of a
-step, and time-reversibility of a palindromic composition of invertible local flows. -/
+import Ptn.C06.Core
+import Ptn.Common.AnalysisLocal
+/-! Property theorems for C06, part 2 (Mathlib): the combinatorial theorems are in `Core.lean`
+(core Lean only, same namespace); here the linear-algebra consequences. -/
 namespace Ptn.C06
-open Ptn.C05
 
-/-! ### Completion -/
+/-! ### Every local update conserves norm and energy (instances of `Ptn.Analysis`, Mathlib)
 
-/-- The first-order schedule is defined for every sweep (also a single node): `m` site updates and
-    `m-1` link updates. -/
-theorem first_length (segs : List Seg) (last : Nat) :
-    (first segs last).length = 2 * segs.length + 1 := by
-  simp only [first, List.length_append, List.length_flatMap, List.length_cons, List.length_nil]
-  have : (segs.map fun _ => 2).sum = 2 * segs.length := by
-    induction segs with
-    | nil => rfl
-    | cons a l ih => simp [ih]; omega
-  simp [this]
+By C05 every local update evolves the local tensor `φ` with `K = EᴴHE`, `E` the embedding of that
+tensor given all other current tensors; by C03 `E` is an isometry (a partial isometry with projector
+`P = EᴴE`, `Pφ = φ`, under zero-padded bonds in the shape-keeping mode).  Hence each local update —
+forward or backward in time — leaves the norm and (for Hermitian `H`) the energy of the represented
+state `Eφ` unchanged; a time step is a composition of such updates and gauge moves that do not
+change the state. -/
 
-/-- The second-order schedule is defined exactly for sweeps over at least two nodes, whatever the
-    shape of the tree (in particular when the root has a single child). -/
-theorem second_defined_iff (segs : List Seg) (last : Nat) :
-    (second segs last).isSome ↔ segs ≠ [] := by
-  unfold second
-  cases h : segs.reverse with
-  | nil => simp [List.reverse_eq_nil_iff.mp h]
-  | cons s rest =>
-    have : segs ≠ [] := by
-      intro hs; simp [hs] at h
-    simp [this]
+open Matrix NormedSpace in
+theorem local_update_conserves_norm {N d : Type} [Fintype N] [Fintype d] [DecidableEq N]
+    [DecidableEq d] (E : Matrix N d ℂ) (H : Matrix N N ℂ) (hE : Eᴴ * E = 1) (hH : Hᴴ = H)
+    (t : ℝ) (φ : d → ℂ) :
+    star (E *ᵥ (exp ((-Complex.I * (t : ℂ)) • (Eᴴ * H * E)) *ᵥ φ)) ⬝ᵥ
+        (E *ᵥ (exp ((-Complex.I * (t : ℂ)) • (Eᴴ * H * E)) *ᵥ φ))
+      = star (E *ᵥ φ) ⬝ᵥ (E *ᵥ φ) :=
+  Ptn.Analysis.local_flow_norm E H hE hH t φ
 
-/-! ### The centre at the end of a step is the first node of the sweep -/
+open Matrix NormedSpace in
+theorem local_update_conserves_energy {N d : Type} [Fintype N] [Fintype d] [DecidableEq N]
+    [DecidableEq d] (E : Matrix N d ℂ) (H : Matrix N N ℂ) (hH : Hᴴ = H) (t : ℝ) (φ : d → ℂ) :
+    star (E *ᵥ (exp ((-Complex.I * (t : ℂ)) • (Eᴴ * H * E)) *ᵥ φ)) ⬝ᵥ
+        (H *ᵥ (E *ᵥ (exp ((-Complex.I * (t : ℂ)) • (Eᴴ * H * E)) *ᵥ φ)))
+      = star (E *ᵥ φ) ⬝ᵥ (H *ᵥ (E *ᵥ φ)) :=
+  Ptn.Analysis.local_flow_energy E H hH t φ
 
-private theorem centre_flat_fwd (c : Nat) (l : List Seg) (d1 d2 : Int) (tail : List Ev) :
-    centreAfter c (l.flatMap (fun s => [Ev.site s.1 d1, Ev.link s.1 s.2 d2]) ++ tail) =
-      centreAfter (match l.getLast? with | some s => s.2 | none => c) tail := by
-  induction l generalizing c with
-  | nil => simp
-  | cons s rest ih =>
-    simp only [List.flatMap_cons, List.cons_append, List.nil_append, centreAfter]
-    rw [ih]
-    cases rest with
-    | nil => simp
-    | cons t r =>
-      have hl := List.getLast?_eq_some_getLast (l := t :: r) (by simp)
-      simp [List.getLast?_cons_cons, hl]
+open Matrix NormedSpace in
+/-- The same with zero-padded bonds: `E` only a partial isometry. -/
+theorem local_update_conserves_norm_padded {N d : Type} [Fintype N] [Fintype d] [DecidableEq N]
+    [DecidableEq d] (E : Matrix N d ℂ) (H : Matrix N N ℂ) (P : Matrix d d ℂ)
+    (hE : Eᴴ * E = P) (hP : P * P = P) (hH : Hᴴ = H) (c : ℂ) (hc : star c = -c)
+    (φ : d → ℂ) (hφ : P *ᵥ φ = φ) :
+    star (E *ᵥ (exp (c • (Eᴴ * H * E)) *ᵥ φ)) ⬝ᵥ (E *ᵥ (exp (c • (Eᴴ * H * E)) *ᵥ φ))
+      = star (E *ᵥ φ) ⬝ᵥ (E *ᵥ φ) :=
+  Ptn.Analysis.local_flow_norm_partial E H P hE hP hH c hc φ hφ
 
-private theorem centre_flat_bwd (c : Nat) (l : List Seg) (d1 d2 : Int) :
-    centreAfter c (l.flatMap (fun t => [Ev.link t.2 t.1 d1, Ev.site t.1 d2])) =
-      match l.getLast? with | some s => s.1 | none => c := by
-  induction l generalizing c with
-  | nil => simp [centreAfter]
-  | cons s rest ih =>
-    simp only [List.flatMap_cons, List.cons_append, List.nil_append, centreAfter]
-    rw [ih]
-    cases rest with
-    | nil => simp
-    | cons t r =>
-      have hl := List.getLast?_eq_some_getLast (l := t :: r) (by simp)
-      simp [List.getLast?_cons_cons, hl]
-
-/-- Second-order one-site: after forward and backward sweep the centre sits on the first node of
-    the update path. -/
-theorem second_final_centre (init : List Seg) (s : Seg) (last c : Nat) :
-    ∃ tr, second (init ++ [s]) last = some tr ∧
-      centreAfter c tr = (match (init ++ [s]).head? with | some t => t.1 | none => c) := by
-  refine ⟨_, second_defined init s last, ?_⟩
-  simp only [List.append_assoc]
-  rw [centre_flat_fwd]
-  simp only [List.cons_append, List.nil_append, centreAfter]
-  rw [centre_flat_bwd]
-  cases init with
-  | nil => simp
-  | cons t r =>
-    simp only [List.reverse_cons, List.cons_append, List.head?_cons]
-    rw [List.getLast?_append]
-    simp
-
-/-- First-order one-site: the sweep ends on `last`; the centre is then moved back to the first
-    node by `_reset_for_next_time_step` (not an event of the schedule). -/
-theorem first_sweep_end (segs : List Seg) (last c : Nat) :
-    centreAfter c (first segs last) = (match segs.getLast? with | some s => s.2 | none => c) := by
-  unfold first
-  rw [centre_flat_fwd]
-  simp [centreAfter]
-
-/-! ### Time reversibility -/
-
-theorem runFlow_append {α : Type} (φ : Pos → Int → α → α) (s t : Sched) (x : α) :
-    runFlow φ (s ++ t) x = runFlow φ t (runFlow φ s x) := by
-  simp [runFlow, List.foldl_append]
-
-/-- Undoing a composition: run the negated schedule in reverse order. -/
-theorem runFlow_neg_reverse {α : Type} (φ : Pos → Int → α → α)
-    (hinv : ∀ p t x, φ p (-t) (φ p t x) = x) (s : Sched) (x : α) :
-    runFlow φ (negSched s.reverse) (runFlow φ s x) = x := by
-  induction s generalizing x with
-  | nil => rfl
-  | cons pt rest ih =>
-    have h1 : runFlow φ (pt :: rest) x = runFlow φ rest (φ pt.1 pt.2 x) := rfl
-    have h2 : negSched (pt :: rest).reverse = negSched rest.reverse ++ [(pt.1, -pt.2)] := by
-      simp [negSched]
-    rw [h1, h2, runFlow_append, ih]
-    simp [runFlow, hinv]
-
-/-- **Reversibility**: if every local flow is undone by the same flow with the negated duration and
-    the schedule is a palindrome, a step with `-H` undoes a step with `H`. -/
-theorem palindromic_reversible {α : Type} (φ : Pos → Int → α → α)
-    (hinv : ∀ p t x, φ p (-t) (φ p t x) = x) (s : Sched) (hpal : s.reverse = s) (x : α) :
-    runFlow φ (negSched s) (runFlow φ s x) = x := by
-  have := runFlow_neg_reverse φ hinv s x
-  rwa [hpal] at this
-
-/-- Two adjacent updates of the same position compose additively when the flow is a one-parameter
-    group: the full step on the last node is two half steps, which is what makes the second-order
-    schedule a palindrome. -/
-theorem runFlow_merge {α : Type} (φ : Pos → Int → α → α)
-    (hadd : ∀ p s t x, φ p t (φ p s x) = φ p (s + t) x) (p : Pos) (a b : Sched) (x : α) :
-    runFlow φ (a ++ [(p, 1), (p, 1)] ++ b) x = runFlow φ (a ++ [(p, 2)] ++ b) x := by
-  simp only [runFlow_append]
+open Matrix NormedSpace in
+/-- Saturated bonds: with a *unitary* embedding the local generator is the full Hamiltonian in
+    another basis, so the local flow is the full propagator: `E exp(cK) Eᴴ = exp(cH)`. -/
+theorem saturated_local_flow_is_full {n : Type} [Fintype n] [DecidableEq n]
+    (E H : Matrix n n ℂ) (hE : Eᴴ * E = 1) (hE' : E * Eᴴ = 1) (c : ℂ) :
+    E * exp (c • (Eᴴ * H * E)) * Eᴴ = exp (c • H) := by
+  have h := Ptn.Analysis.exp_unitary_conj E (c • (Eᴴ * H * E)) hE
+  rw [h]
   congr 1
-  simp [runFlow, hadd]
-
-/-- The second-order schedule (with the full step on the last node split in two halves) is a
-    palindrome as a sequence of (position, duration). -/
-theorem second_sched_palindrome (init : List Seg) (s : Seg) (last : Nat) (hadj : s.2 = last) :
-    let half := schedOf ((init ++ [s]).flatMap (fun s => [Ev.site s.1 1, Ev.link s.1 s.2 (-1)]))
-    let back := schedOf ([Ev.link last s.1 (-1), Ev.site s.1 1]
-        ++ init.reverse.flatMap (fun t => [Ev.link t.2 t.1 (-1), Ev.site t.1 1]))
-    (half ++ [(Pos.site last, 1), (Pos.site last, 1)] ++ back).reverse
-      = half ++ [(Pos.site last, 1), (Pos.site last, 1)] ++ back := by
-  intro half back
-  have hb : back = half.reverse := by
-    have := second_palindromic init s last hadj
-    simp only at this
-    simp only [back, half, schedOf]
-    rw [this, ← List.map_reverse, List.map_map]
-    apply List.map_congr_left
-    intro e _
-    cases e with
-    | site v d => rfl
-    | link a b d =>
-      simp only [Function.comp, Ev.pos, Ev.dur]
-      by_cases h : a ≤ b <;> by_cases h' : b ≤ a <;> simp [h, h']
-      · have : a = b := by omega
-        simp [this]
-      · omega
-    | two a b d => rfl
-  rw [hb]
-  simp [List.reverse_append]
-
-/-! ### Non-vacuity -/
-
-example : centreAfter 1 ((second [(1, 0), (2, 0), (0, 3)] 3).getD []) = 1 := by decide
-example : (second [(0, 1)] 1).isSome = true := by decide      -- root 0 with the single child 1
-example :
-    let φ : Pos → Int → Int → Int := fun p t x => x + t * (match p with | .site v => v + 1 | .bond a b => a + b + 7)
-    (∀ p t x, φ p (-t) (φ p t x) = x) := by
-  intro φ p t x; simp only [φ]; rw [Int.neg_mul]; omega
+  rw [Matrix.mul_smul, Matrix.smul_mul]
+  congr 1
+  calc E * (Eᴴ * H * E) * Eᴴ = (E * Eᴴ) * H * (E * Eᴴ) := by
+        simp only [Matrix.mul_assoc]
+    _ = H := by rw [hE']; simp
 
 end Ptn.C06
